@@ -179,6 +179,11 @@ def _run_case(case, ctx):
                     opts[second] = [par if m in osel else gen.choice(rs, [None, False, 0]) for m in range(order)]
                     which += "+list"
             opts["n_iter_max_inner"] = int(gen.choice(rs, [1, 3, 10]))
+            if rs.rand() < 0.3:
+                # some modes kept fixed: a fixed mode declared non-negative is returned as initialised, which therefore has to be feasible
+                kf = int(rs.randint(1, order))
+                opts["fixed_modes"] = sorted(rs.choice(order - 1, size=min(kf, order - 1), replace=False).tolist())
+                which += "+fixed"
     elif algo in ("nn_tucker", "nn_tucker_hals"):
         shp = data["shape"]
         check_core = True
